@@ -5,6 +5,7 @@ from ..core import zlist
 from ..codec import Codec
 from ..layouts import contiguous, fortran, zoo
 from .c13 import vals_for, lst, expected_bin
+from .c12 import mk_gridb_case, parse_gridb, gridb_recount, random_mode, STRATS
 
 ETS = ["i64", "n64", "u8", "i32"]
 
@@ -49,7 +50,8 @@ class C11(Prop):
             "observation matrices. Non-trivial: at least one accepted and the history has >= 2 observations.")
     exhaustive_note = {"quick": "1 axis: all histories of length <= 4 over 6 points; 2 axes: all histories of length <= 2 over 25 points",
                        "thorough": "1 axis: length <= 5 over 7 points; 2 axes: length <= 3 over 25 points; 3 axes: length <= 2 over 27 points"}
-    correspondences = {"hist": "corr:C11/add_observation/outcome+counts-after-every-insert", "histm": "corr:C11/histogram/shape+counts"}
+    correspondences = {"hist": "corr:C11/add_observation/outcome+counts-after-every-insert", "histm": "corr:C11/histogram/shape+counts",
+                       "gridb": "corr:C11/histogram-over-strategy-built-grid/shape+counts (model on the observed edges)"}
     trusted_base = ["ndarray ArrayD indexing by &[usize] (row-major flat index) and axis_iter(Axis(0)) row order"]
     assumptions = ["Ord is a total order (integer and N64 element types)"]
 
@@ -111,7 +113,37 @@ class C11(Prop):
             for lay in lays:
                 yield mk_histm_case(ETS[k % 4], axes, rows, lay)
 
+        # grids built by the bin-building strategies (GridBuilder), including data of large magnitude relative to its
+        # spread, where the placed edges min + i * w collide after rounding and observations sit exactly on edges
+        for rep in range(12 if tier == "quick" else 500):
+            for name in STRATS:
+                nrows = rng.range(4, 40)
+                ncols = rng.range(1, 3)
+                if rep % 2:
+                    base = 2.0 ** rng.choice([52, 53, 54, 58])
+                    step = base * 2.0 ** -52 * rng.choice([1, 2])
+                    cols = [[base + step * rng.choice([0, 0, 1, 2, 2, 3, 5]) for _ in range(nrows)] for _ in range(ncols)]
+                    et = "n64"
+                else:
+                    et = rng.choice(["n64", "i64", "i32"])
+                    cols = [[rng.range(-50, 50) * (0.3 if et == "n64" else 1) for _ in range(nrows)] for _ in range(ncols)]
+                rows = [[cols[c][r] for c in range(ncols)] for r in range(nrows)]
+                lay = rng.choice(zoo([nrows, ncols], rng, 2))
+                yield mk_gridb_case(name, et, rows, lay, random_mode(rng, nrows))
+
     def parse(self, case):
+        if case.routine == "gridb":
+            parse_gridb(case)
+            o = case.obs
+            if o["tag"] == "OK" and o.get("counts") is not None:
+                cd = Codec(case.et)
+                case.axes_k = [[cd.key_of_tok(t) for t in e] for _, e in o["projs"]]
+                case.rows_k = [[cd.key_of_tok(t) for t in r] for r in case.rows_t]
+                case.obs = ([len(o["cshape"])] + o["cshape"] + o["counts"],
+                            dict(panic=False, shape=o["cshape"], counts=o["counts"], gridb=o))
+            else:
+                case.obs = ([-2], dict(panic=False, gridb=o, rejected=True, shape=[], counts=[]))
+            return
         secs = [s.split() for s in case.raw.split("|")]
         if case.routine == "hist":
             assert secs[0][0] == "OK"
@@ -156,6 +188,22 @@ class C11(Prop):
     def oracle(self, case):
         flat, st = case.obs
         out = []
+        if case.routine == "gridb":
+            if st.get("rejected"):
+                return []       # the strategy did not accept the data (or panicked): C12's business
+            saved = case.obs
+            case.obs = st["gridb"]
+            try:
+                out = gridb_recount(case)
+            finally:
+                case.obs = saved
+            # the same through this property's own recount on the observed (strict) edges
+            if not out and all(a == sorted(set(a)) for a in case.axes_k):
+                shape, size, trace = self._expect(case.axes_k, case.rows_k)
+                want = trace[-1][1] if trace else [0] * size
+                if st["shape"] != shape or st["counts"] != want:
+                    out.append("counts: %s (shape %s), recount %s (shape %s)" % (st["counts"][:8], st["shape"], want[:8], shape))
+            return out
         if case.routine == "hist":
             shape, size, trace = self._expect(case.axes_k, case.pts_k)
             if st["shape"] != shape or st["ndim"] != len(shape):
@@ -186,17 +234,23 @@ class C11(Prop):
         return out
 
     def chk_term(self, case):
-        flat, _ = case.obs
+        flat, st = case.obs
+        if case.routine == "gridb" and (st.get("rejected") or len(case.rows_k) * max(sum(len(a) for a in case.axes_k), 1) > 20000):
+            return None
         return "chk (%s) %s" % (self.model_term(case), zlist(flat))
 
     def model_term(self, case):
         ll = lambda xs: "[" + ";".join(zlist(x) for x in xs) + "]"
         if case.routine == "hist":
             return "m_hist %s %s" % (ll(case.axes_k), ll(case.pts_k))
+        if case.routine == "gridb" and not hasattr(case, "axes_k"):
+            return None
         return "m_histm %s %s" % (ll(case.axes_k), ll(case.rows_k))
 
     def nontrivial(self, case):
         flat, st = case.obs
+        if case.routine == "gridb":
+            return (not st.get("rejected")) and sum(st["counts"]) >= 2
         if case.routine == "hist":
             return len(st["steps"]) >= 2 and any(t == "A" for t, _ in st["steps"])
         return (not st.get("panic")) and sum(st["counts"]) >= 1 and len(case.rows_k) >= 2
